@@ -234,6 +234,10 @@ pub struct CallInfo {
     /// blocking client: the caller thread stays alive and takes further jobs, so a follow-up call can be
     /// issued from the SAME OS thread (per-thread state in the client must not leak between calls)
     pub worker: Option<mpsc::Sender<(usize, Value, Option<Duration>)>>,
+    /// `AsyncClient::forward_message*` call: the CALLER-CHOSEN request id it was issued with
+    pub fwd_id: Option<u64>,
+    /// forward launched droppable: firing this makes the task drop the forward future (the task lives on)
+    pub drop_tx: Option<tokio::sync::oneshot::Sender<()>>,
 }
 
 pub struct Calls {
@@ -304,7 +308,7 @@ impl Calls {
                 }));
             }
         }
-        self.v.push(CallInfo { token, timeout, handle, res: None, cancelled: false, worker });
+        self.v.push(CallInfo { token, timeout, handle, res: None, cancelled: false, worker, fwd_id: None, drop_tx: None });
         idx
     }
     /// Issue a call from the same OS thread that made call `from` (blocking client; that call must have
@@ -313,7 +317,7 @@ impl Calls {
         if let Some(w) = self.v.get(from).and_then(|c| c.worker.clone()) {
             let idx = self.v.len();
             if w.send((idx, body_for(token, pad), timeout)).is_ok() {
-                self.v.push(CallInfo { token, timeout, handle: None, res: None, cancelled: false, worker: Some(w) });
+                self.v.push(CallInfo { token, timeout, handle: None, res: None, cancelled: false, worker: Some(w), fwd_id: None, drop_tx: None });
                 return idx;
             }
         }
@@ -349,8 +353,101 @@ impl Calls {
         if let Err(e) = r {
             let _ = self.tx.send(Done { idx, res: CallRes::Panic(format!("harness: thread spawn failed: {e}")) });
         }
-        self.v.push(CallInfo { token, timeout, handle: None, res: None, cancelled: false, worker: None });
+        self.v.push(CallInfo { token, timeout, handle: None, res: None, cancelled: false, worker: None, fwd_id: None, drop_tx: None });
         idx
+    }
+    /// A forwarded call on the async client: a prebuilt request frame carrying the CALLER-CHOSEN id `id`
+    /// goes through `AsyncClient::forward_message` / `forward_message_with_timeout` (the API a proxy uses
+    /// to relay downstream frames over a shared upstream client). The result is the JSON body of the
+    /// response plus `"_id"` = the id in the response header. With `droppable` the task selects between
+    /// the forward future and a signal: `drop_future_and_wait` makes it DROP the future while the task
+    /// itself lives on (the other flavour of cancellation next to `JoinHandle::abort`).
+    pub fn launch_fwd(&mut self, env: &Env, cli: &Cli, id: u64, token: u64, pad: usize, timeout: Option<Duration>, droppable: bool) -> usize {
+        let idx = self.v.len();
+        let tx = self.tx.clone();
+        let body = body_for(token, pad);
+        let mut handle = None;
+        let mut drop_tx = None;
+        match cli.clone() {
+            Cli::Async(c) => {
+                let msg = match repe::Message::builder().id(id).query_str(PATH).query_format_code(1).body_json(&body) {
+                    Ok(b) => b.build(),
+                    Err(e) => {
+                        let _ = self.tx.send(Done { idx, res: CallRes::Panic(format!("harness: request build failed: {e}")) });
+                        self.v.push(CallInfo { token, timeout, handle: None, res: None, cancelled: false, worker: None, fwd_id: Some(id), drop_tx: None });
+                        return idx;
+                    }
+                };
+                let (dtx, drx) = tokio::sync::oneshot::channel::<()>();
+                // not droppable: the sender lives inside the task, so the signal never fires
+                let keep = if droppable {
+                    drop_tx = Some(dtx);
+                    None
+                } else {
+                    Some(dtx)
+                };
+                handle = Some(env.rt_cli.spawn(async move {
+                    let _keep = keep;
+                    let r = {
+                        let fut = async {
+                            match timeout {
+                                None => c.forward_message(&msg).await,
+                                Some(d) => c.forward_message_with_timeout(&msg, d).await,
+                            }
+                        };
+                        tokio::pin!(fut);
+                        tokio::select! {
+                            biased;
+                            r = &mut fut => Some(r),
+                            _ = drx => None,
+                        }
+                        // `fut` is dropped here, before the result is published
+                    };
+                    let res = match r {
+                        None => CallRes::Err("FutureDropped: the harness dropped the forward future".into()),
+                        Some(Ok(Some(m))) => match serde_json::from_slice::<Value>(&m.body) {
+                            Ok(mut v) => {
+                                if let Some(o) = v.as_object_mut() {
+                                    o.insert("_id".into(), json!(m.header.id));
+                                }
+                                CallRes::Ok(v)
+                            }
+                            Err(e) => CallRes::Err(format!("ForwardBodyNotJson: {e} (ec {}, {} body bytes)", m.header.ec, m.body.len())),
+                        },
+                        Some(Ok(None)) => CallRes::Err("ForwardReturnedNone: Ok(None) for a non-notify request".into()),
+                        Some(Err(e)) => CallRes::Err(format!("{}: {}", ekind(&e), trunc(&e.to_string(), 120))),
+                    };
+                    let _ = tx.send(Done { idx, res });
+                }));
+            }
+            _ => {
+                let _ = self.tx.send(Done { idx, res: CallRes::Panic("harness: forward_message exists on AsyncClient only".into()) });
+            }
+        }
+        self.v.push(CallInfo { token, timeout, handle, res: None, cancelled: false, worker: None, fwd_id: Some(id), drop_tx });
+        idx
+    }
+    /// Make the task of droppable forward `idx` drop its forward future and wait until it has done so.
+    /// Returns "cancelled" (future dropped before it completed), "completed", "panicked:<msg>",
+    /// "join-timeout" or "no-handle".
+    pub fn drop_future_and_wait(&mut self, idx: usize, dur: Duration, after_signal: impl FnOnce()) -> String {
+        let Some(tx) = self.v[idx].drop_tx.take() else {
+            return "no-handle".into();
+        };
+        let _ = tx.send(());
+        after_signal();
+        if !self.wait(&[idx], dur).is_empty() {
+            return "join-timeout".into();
+        }
+        match self.v[idx].res.clone() {
+            Some(CallRes::Err(e)) if e.starts_with("FutureDropped") => {
+                self.v[idx].cancelled = true;
+                self.v[idx].res = None;
+                "cancelled".into()
+            }
+            Some(CallRes::Panic(p)) => format!("panicked:{p}"),
+            _ => "completed".into(),
+        }
     }
     fn absorb(&mut self, d: Done) {
         if let Some(c) = self.v.get_mut(d.idx) {
@@ -415,6 +512,7 @@ pub struct Env {
     /// largest heartbeat gap over all scenarios (the heartbeat itself is reset per scenario)
     pub max_gap_all: u64,
     next_token: u64,
+    next_fwd_id: u64,
     pub hangs_left: i64,
     /// wall-clock cap of the whole stage: loops stop starting new scenarios after it
     pub deadline: Instant,
@@ -450,7 +548,7 @@ impl Env {
                 }
             });
         }
-        Ok(Env { rt_cli, rt_srv, tcp: Arc::new(tcp), tcp_addr, ws: Arc::new(ws), ws_addr, hb: Heartbeat::start(), max_gap_all: 0, next_token: 1000, hangs_left: hang_budget, deadline: Instant::now() + Duration::from_secs(3600), kick_stop })
+        Ok(Env { rt_cli, rt_srv, tcp: Arc::new(tcp), tcp_addr, ws: Arc::new(ws), ws_addr, hb: Heartbeat::start(), max_gap_all: 0, next_token: 1000, next_fwd_id: 0, hangs_left: hang_budget, deadline: Instant::now() + Duration::from_secs(3600), kick_stop })
     }
     pub fn hb_reset(&mut self) {
         self.max_gap_all = self.max_gap_all.max(self.hb.max_gap_ms());
@@ -462,6 +560,12 @@ impl Env {
     pub fn token(&mut self) -> u64 {
         self.next_token += 1;
         self.next_token
+    }
+    /// A fresh caller-chosen request id for a forwarded frame: far away from the ids the client's own
+    /// counter hands out (1, 2, ..), unique over the whole run unless a scenario reuses it on purpose.
+    pub fn fwd_id(&mut self) -> u64 {
+        self.next_fwd_id += 1;
+        (1u64 << 40) + self.next_fwd_id * 7
     }
     /// Start a fake server connection and connect a client of `kind` to it.
     pub fn connect(&self, kind: Kind, reading: bool) -> Result<(Cli, Srv), String> {
@@ -491,7 +595,7 @@ impl Env {
                 }
             }
         });
-        Srv { cmd: ctx, ev: erx, reqs: vec![], gone: None, sent_full: vec![] }
+        Srv { cmd: ctx, ev: erx, reqs: vec![], gone: None, sent_full: vec![], sent_tokens: vec![] }
     }
 }
 
@@ -547,6 +651,9 @@ pub struct Srv {
     pub gone: Option<String>,
     /// request ids for which a complete, correct response was handed to the socket
     pub sent_full: Vec<u64>,
+    /// tokens of the requests for which a complete, correct response was handed to the socket
+    /// (request ids can be reused by forwarded frames, tokens never are)
+    pub sent_tokens: Vec<u64>,
 }
 
 impl Srv {
@@ -609,6 +716,7 @@ impl Srv {
         let f = r.response();
         self.send(if ws { Cmd::WsBinary(f) } else { Cmd::Raw(f) });
         self.sent_full.push(r.header.id);
+        self.sent_tokens.push(r.token);
     }
 }
 
